@@ -203,6 +203,9 @@ def _c07_case(seed):
             imports.add((x, y))
     if imports and rng.random() < 0.3:
         imports.discard(rng.choice(sorted(imports)))
+    if rng.random() < 0.25:
+        # a module importing the base package, i.e. one of its own ancestors: that is 'something outside the drawn targets and the component itself'
+        imports.add((rng.choice(cand), base))
     arch = build_arch(mods, sorted(imports))
     lines = [f"[{c}]" for c in comps if rng.random() < 0.7 or not any(c in p for p in relation)] + [f"[{a}] --> [{b}]" for a, b in sorted(relation)]
     out = []
